@@ -19,6 +19,15 @@ def record(ctx, mode, n, seed_off=0, need=(), **kw):
     os.makedirs(w, exist_ok=True)
     t = os.path.join(w, "%s_%d.ndjson" % (mode, seed_off))
     r = vlib.xv("shard", mode=mode, n=n, seed=ctx.seed + seed_off, out=t, **kw)
+    if "died" in r:
+        # the driver process died inside the code under test: the trace up to that point plus the death is validated
+        # (no action of the specification matches ShAbort, so the run is reported with the partial trace as replay)
+        import json
+        with open(r["partial"], "a") as f:
+            f.write(json.dumps({"ev": "ShAbort", "signal": -r["died"], "what": r["what"]}) + "\n")
+        os.replace(r["partial"], t)
+        validate(ctx, t, mode)
+        return r
     counts = r["counts"]
     missing = [k for k in need if not any(c.startswith(k) and v > 0 for c, v in counts.items())]
     if missing:
